@@ -26,6 +26,8 @@ type Transport struct {
 
 	// Interpose, if non-nil, is consulted for every new stream.
 	Interpose Interposer
+	// FailDial, if non-nil, may refuse a dial attempt (stream numbers start at 1).
+	FailDial func(streamNo int) error
 	// OnDial is called (in the dialling goroutine) with the renter's end of
 	// every new stream, e.g. to keep a handle for cutting it later.
 	OnDial func(streamNo int, c *Conn)
@@ -60,7 +62,13 @@ func (t *Transport) DialStream(ctx context.Context) (net.Conn, error) {
 	t.streams++
 	n := t.streams
 	ip := t.Interpose
+	fd := t.FailDial
 	t.mu.Unlock()
+	if fd != nil {
+		if err := fd(n); err != nil {
+			return nil, err
+		}
+	}
 	var client, server *Conn
 	if ip == nil {
 		client, server = Pipe(fmt.Sprintf("renter-%d", n), fmt.Sprintf("host-%d", n))
